@@ -261,7 +261,8 @@ def analyse(ur, diags, res):
                 tags = sorted(set(tags) | set(ur.fn_tags(f)))
                 clause = clause or (f['id'] + '.closure')
             else:
-                tags = sorted(set(tags) | {'C08'})
+                extra = set((f.get('safety_tags') or '').split(',')) - {''} if f else set()
+                tags = sorted(set(tags) | {'C08'} | extra)
                 clause = clause or ((f['id'] if f else ur.unit) + '.' + kind)
         if f is None and not tags:
             # a failure outside every extracted function: a hand-written lemma of the unit
